@@ -25,7 +25,7 @@ from simkit.world import World, SimBodyError
 class DataSim(Sim):
     PROP = "C18"
     NAME = "datasim"
-    QUICK_RUNS = 30000
+    QUICK_RUNS = 80000
     THOROUGH_RUNS = 600000
     MAX_EVENTS = 40
     RUN_TIMEOUT = 20
